@@ -45,6 +45,21 @@ func (e *Env) NewStateWith(name string, crypt cryptoBase.CryptoClient, aclMgr ac
 	return s
 }
 
+// NewStateCtx is NewStateWith returning the state context too (the contract manager is
+// installed in it after the state exists, as the engine does).
+func (e *Env) NewStateCtx(name string, crypt cryptoBase.CryptoClient, aclMgr aclBase.AclManager) (*state.State, *sctx.StateCtx) {
+	c := &sctx.StateCtx{EnvCfg: e.EnvCfg, LedgerCfg: &config.XLedgerConf{KVEngineType: "verifmem", StorageType: "single", Utxo: config.UtxoConfig{CacheSize: 1000, TmpLockSeconds: 60}}, BCName: name,
+		Ledger: e.L, Crypt: crypt}
+	c.XLog = vlog.Nop{}
+	c.Timer = timer.NewXTimer()
+	c.AclMgr = aclMgr
+	s, err := state.NewState(c)
+	if err != nil {
+		panic("vkit: NewState: " + err.Error())
+	}
+	return s, c
+}
+
 // StateDBPath is the registry key of a state database.
 func (e *Env) StateDBPath(name string) string {
 	return "/verifmem/" + e.Name + "/data/blockchain/" + name + "/utxoVM"
